@@ -36,6 +36,19 @@ Theorem C10_sid_agreement :
 Proof. exact sid_agreement. Qed.
 Print Assumptions C10_sid_agreement.
 
+(* end to end, for the honest scheduler (every message delivered unchanged), every quorum
+   and every assignment of tapes: any two parties that complete hold matching contexts
+   (same SID, transcript state, quorum) and the same pairwise seed *)
+Theorem C10_honest_run_agreement :
+  forall (com : bytes -> bytes -> bytes) (h512 : bytes -> bytes) (xof : bytes -> bytes -> N -> N -> bytes)
+         (q : list N) (tape : N -> bytes) (i j : N) (ri rj : prun) (ci cj : context),
+    NoDup q -> In (i, ri) (honest_run com h512 q tape) -> In (j, rj) (honest_run com h512 q tape) -> i <> j ->
+    pr_ctx ri = Some ci -> pr_ctx rj = Some cj ->
+    (exists s : seed, get j (cx_seeds ci) = Some s /\ get i (cx_seeds cj) = Some s) /\
+    ctx_match ci cj /\ cx_holder ci = i /\ cx_holder cj = j.
+Proof. exact honest_run_agreement. Qed.
+Print Assumptions C10_honest_run_agreement.
+
 (* the party's quorum order is immaterial: it is sorted *)
 Theorem C10_sorted_quorum_canonical : forall l l' : list N, isort l = isort l' <-> Permutation l l'.
 Proof. exact isort_eq_iff. Qed.
